@@ -89,17 +89,30 @@ func ReadMaterials(in io.Reader) ([]modeling.Material, error) {
 				Name: strings.Join(components[1:], " "),
 			}
 
-		case "map_Kd":
+		case "map_Kd", "map_Ks", "map_Bump", "norm":
 			if workingMaterial == nil {
 				return nil, errors.New("received material parameters before newmtl declaration")
 			}
 
 			path := strings.Join(components[1:], " ")
-			workingMaterial.ColorTextureURI = &path
+			switch components[0] {
+			case "map_Kd":
+				workingMaterial.ColorTextureURI = &path
+			case "map_Ks":
+				workingMaterial.SpecularTextureURI = &path
+			default:
+				// The writer states the normal texture twice, as map_Bump and as norm
+				workingMaterial.NormalTextureURI = &path
+			}
 
-		case "Ns":
+		case "Ns", "Ni", "d":
 			if workingMaterial == nil {
 				return nil, errors.New("received material parameters before newmtl declaration")
+			}
+
+			if components[0] == "d" && len(components) > 2 && components[1] == "-halo" {
+				// "d -halo factor" (view dependent dissolve) has no counterpart in Material
+				continue
 			}
 
 			f, err := parseFloatLine(components)
@@ -107,11 +120,24 @@ func ReadMaterials(in io.Reader) ([]modeling.Material, error) {
 				return nil, fmt.Errorf("failed to parse float line: %w", err)
 			}
 
-			workingMaterial.SpecularHighlight = f
+			switch components[0] {
+			case "Ns":
+				workingMaterial.SpecularHighlight = f
+			case "Ni":
+				workingMaterial.OpticalDensity = f
+			case "d":
+				// d is the opposite of transparency: 1 is fully opaque
+				workingMaterial.Transparency = 1 - f
+			}
 
-		case "Kd":
+		case "Kd", "Ka", "Ks":
 			if workingMaterial == nil {
 				return nil, errors.New("received material parameters before newmtl declaration")
+			}
+
+			if len(components) > 1 && (components[1] == "spectral" || components[1] == "xyz") {
+				// colours given as a spectral curve file or in CIEXYZ have no counterpart in Material
+				continue
 			}
 
 			f, err := parseColorLine(components)
@@ -119,7 +145,14 @@ func ReadMaterials(in io.Reader) ([]modeling.Material, error) {
 				return nil, fmt.Errorf("failed to parse color line: %w", err)
 			}
 
-			workingMaterial.DiffuseColor = f
+			switch components[0] {
+			case "Kd":
+				workingMaterial.DiffuseColor = f
+			case "Ka":
+				workingMaterial.AmbientColor = f
+			case "Ks":
+				workingMaterial.SpecularColor = f
+			}
 		}
 
 	}
